@@ -1784,6 +1784,13 @@ int32 matrixCreateSessionTicket(ssl_t *ssl, unsigned char *out, int32 *outLen)
     psLockMutex(&g_sessTicketLock);
     /* Ticket itself */
     keys = ssl->keys->sessTickets;
+    if (keys == NULL)
+    {
+        /* The application deleted its last ticket key after this handshake
+           had announced a ticket */
+        psUnlockMutex(&g_sessTicketLock);
+        return PS_FAILURE;
+    }
     /* name */
     Memcpy(c, keys->name, 16);
     c += 16;
